@@ -4,6 +4,7 @@ No source hook in /repo is needed: every seam is a public attribute or a module 
 patched in the check process only.
 """
 import random as _random
+import numbers
 import io
 import contextlib
 
@@ -66,7 +67,7 @@ def check_wire_ranges(root, where, step):
     """C06 invariant, monitored in every run of every property."""
     for w in all_wires(root):
         v = w.value
-        if type(v) is not int or v < 0 or (v >> w.width) != 0:
+        if not isinstance(v, numbers.Integral) or isinstance(v, bool) or v < 0 or (v >> w.width) != 0:
             raise Violation('wire-range', 'C06:range:%s' % type(w.parent).__name__, step,
                             'wire %s width=%d value=%r at %s' % (w.getFullPath(), w.width, v, where))
 
